@@ -2,6 +2,10 @@ import GuppyVerif.Lemmas.C12Sound
 import GuppyVerif.Lemmas.C12Star
 import GuppyVerif.Lemmas.C12Term
 import GuppyVerif.Lemmas.C12Compl
+import GuppyVerif.Lemmas.C12Exact
+import GuppyVerif.Lemmas.C12Bound
+import GuppyVerif.Lemmas.C12LinCompl
+import GuppyVerif.Lemmas.C12Call
 /-! # C12 — type inference finds an instantiation exactly when one exists
 
 Property theorems about `Model/Unify.lean` (the model of `unify`, `_unify_var`, `_occurs`, `_unify_args`,
@@ -43,6 +47,22 @@ theorem unify_sound_applied (E : Env) (f : Nat) (s t : Tm) (σ₀ σ : Subst) (h
   intro v u hv
   unfold FlagEq
   rw [h₁ n (by omega) v u hv]
+
+/-- **Soundness with `applyStar`** (what the design states): on a consistent prior, applying the returned
+    substitution exhaustively — `|σ|` `Substituter` passes, which is what `applyStar` does — makes both sides
+    identical up to flags and leaves no bound variable. -/
+theorem unify_sound_applyStar (E : Env) (f : Nat) (s t : Tm) (σ₀ σ : Subst) (h₀ : Acyclic σ₀)
+    (h : unify E f s t σ₀ = .ok σ) :
+    FlagEq (applyStar σ s) (applyStar σ t) ∧ Saturated σ (applyStar σ s) ∧ Saturated σ (applyStar σ t) := by
+  have g := unify_good E f s t σ₀ σ h
+  have ha : Acyclic σ := g.acyc h₀
+  refine ⟨?_, applyN_len_saturated ha _ (Nat.le_refl _) s, applyN_len_saturated ha _ (Nat.le_refl _) t⟩
+  unfold applyStar
+  rw [applyN_eq_inst, applyN_eq_inst]
+  apply g.eq
+  intro v u hv
+  unfold FlagEq
+  rw [passes_len_solves ha _ (Nat.le_refl _) v u hv]
 
 /-- The ownership-flag rule at the root: two function types only unify when they have the same
     parameters, the same number of inputs, and no pair of inputs that are both linear carries different
@@ -127,6 +147,141 @@ theorem unify_iff_partial (E : Env) (hE : NoLinear E) (s t : Tm) (σ₀ : Subst)
     obtain ⟨n, σ, h⟩ := unify_complete_partial E hE s t σ₀ hs ht hw h₀ θ hθ hu
     exact ⟨n, σ, h n (Nat.le_refl _)⟩
 
+/-- **Completeness for exact unifiers, every environment.**  If an assignment solves the consistent
+    well-sorted prior and makes `s` and `t` literally identical (ownership flags included), `unify` returns
+    a substitution — whatever is linear.  (Partial w.r.t. the property: the premise asks for identity including
+    the flags of non-linear inputs, which the property would let differ.) -/
+theorem unify_complete_exact_partial (E : Env) (s t : Tm) (σ₀ : Subst)
+    (hs : s.wf = true) (ht : t.wf = true) (hw : WfSubst σ₀) (h₀ : Acyclic σ₀)
+    (θ : V → Tm) (hθ : SolvesX θ σ₀) (hu : UnifiesX θ s t) :
+    ∃ n σ, ∀ m, n ≤ m → unify E m s t σ₀ = .ok σ := by
+  obtain ⟨n, hn, hst⟩ := unify_terminates_aux E s t σ₀ h₀
+  have hc := (unify_complX E θ n s t σ₀ hs ht hw hθ hu).1
+  cases hres : unify E n s t σ₀ with
+  | oof => exact absurd hres hn
+  | fail => exact absurd hres hc
+  | ok σ => exact ⟨n, σ, fun m hm => by rw [hst m hm, hres]⟩
+
+/-- **Most general for exact unifiers, every environment**: such an assignment solves the returned
+    substitution exactly and is unchanged by pre-composing any number of passes of it: `θ = θ ∘ σᵏ`. -/
+theorem unify_mgu_exact_partial (E : Env) (f : Nat) (s t : Tm) (σ₀ σ : Subst)
+    (hs : s.wf = true) (ht : t.wf = true) (hw : WfSubst σ₀) (h : unify E f s t σ₀ = .ok σ)
+    (θ : V → Tm) (hθ : SolvesX θ σ₀) (hu : UnifiesX θ s t) :
+    SolvesX θ σ ∧ ∀ k x, inst θ (applyN σ k x) = inst θ x := by
+  have hsol := ((unify_complX E θ f s t σ₀ hs ht hw hθ hu).2 σ h).1
+  exact ⟨hsol, fun k x => solvesX_applyN hsol k x⟩
+
+/-! ### the literal reading of the flag clause, for assignments that keep linearity
+
+`LinEq E` is the property's own "identical, respecting that linear inputs must agree on ownership flags".
+For assignments `θ` with `LinInv E θ` (instantiating does not change which types are linear — e.g. every
+variable is mapped to a type with the variable's declared copy/drop capabilities, `linInv_of_bounds`) the code
+is sound, complete and most general with respect to it.  Without `LinInv` it is not: see the two `…_false`
+theorems below. -/
+
+/-- soundness, literal reading -/
+theorem unify_sound_lin_partial (E : Env) (f : Nat) (s t : Tm) (σ₀ σ : Subst) (h : unify E f s t σ₀ = .ok σ)
+    (θ : V → Tm) (hθ : LinInv E θ) (hsol : SolvesL E θ σ) : SolvesL E θ σ₀ ∧ UnifiesL E θ s t := by
+  obtain ⟨e, hs⟩ := unify_soundL E θ hθ f s t σ₀ σ h
+  exact ⟨hsol.of_extends e, hs hsol⟩
+
+/-- completeness, literal reading -/
+theorem unify_complete_lin_partial (E : Env) (s t : Tm) (σ₀ : Subst)
+    (hs : s.wf = true) (ht : t.wf = true) (hw : WfSubst σ₀) (h₀ : Acyclic σ₀)
+    (θ : V → Tm) (hθ : LinInv E θ) (hsol : SolvesL E θ σ₀) (hu : UnifiesL E θ s t) :
+    ∃ n σ, ∀ m, n ≤ m → unify E m s t σ₀ = .ok σ := by
+  obtain ⟨n, hn, hst⟩ := unify_terminates_aux E s t σ₀ h₀
+  have hc := (unify_complL E θ hθ n s t σ₀ hs ht hw hsol hu).1
+  cases hres : unify E n s t σ₀ with
+  | oof => exact absurd hres hn
+  | fail => exact absurd hres hc
+  | ok σ => exact ⟨n, σ, fun m hm => by rw [hst m hm, hres]⟩
+
+/-- most general, literal reading: every linearity-keeping unifier that respects the prior solves the result -/
+theorem unify_mgu_lin_partial (E : Env) (f : Nat) (s t : Tm) (σ₀ σ : Subst)
+    (hs : s.wf = true) (ht : t.wf = true) (hw : WfSubst σ₀) (h : unify E f s t σ₀ = .ok σ)
+    (θ : V → Tm) (hθ : LinInv E θ) (hsol : SolvesL E θ σ₀) (hu : UnifiesL E θ s t) : SolvesL E θ σ :=
+  ((unify_complL E θ hθ f s t σ₀ hs ht hw hsol hu).2 σ h).1
+
+/-- non-vacuity: `Q` (definition 4) and variable 4 linear; `θ(?4) = Q`, every other variable ↦ `int`;
+    `(?4 @owned) -> None` against `(Q @owned) -> None` -/
+example : let E : Env := { vNoCopy := [4], vNoDrop := [4], dNoCopy := [4], dNoDrop := [4] }
+    let θ : V → Tm := fun v => if v = 4 then .node (.opaque 4) [] else .atom (.num 2)
+    LinInv E θ ∧ SolvesL E θ [] ∧
+      UnifiesL E θ (.node (.func [2] 0) [.targ (.var 4), .targ (.atom .none)])
+        (.node (.func [2] 0) [.targ (.node (.opaque 4) []), .targ (.atom .none)]) := by
+  intro E θ
+  refine ⟨linInv_of_bounds ?_ ?_, fun _ _ h => by simp [lookup] at h, rfl⟩
+  · intro v
+    by_cases e : v = 4
+    · subst e; rfl
+    · simp [θ, e, E, copyable]
+  · intro v
+    by_cases e : v = 4
+    · subst e; rfl
+    · simp [θ, e, E, droppable]
+
+/-! ### the literal reading of the ownership-flag clause is false of the code (known findings)
+
+`LinEq E` (equality of `norm E` normal forms) is the property's literal "identical, respecting that linear inputs must agree on flags".  The code
+evaluates linearity on the types as written, so with respect to `linEq` after instantiation it is neither
+complete nor sound for assignments that change which inputs are linear (for the others see
+`unify_sound_lin_partial`, `unify_complete_lin_partial`).  Both witnesses are replayed on the real code by the check
+(`corpus/c12/k01_flag_rule_literal.json`, reported as KNOWN-FINDING). -/
+
+/-- not complete: `(?T @owned) -> None` against `(?T) -> None` with `?T` (variable 4) declared linear is
+    rejected for every fuel, although `T := int` makes both sides `LinEq`-identical (`int` is not linear). -/
+theorem unify_complete_linear_flags_false :
+    ∃ (E : Env) (s t : Tm) (θ : V → Tm), s.wf = true ∧ t.wf = true ∧
+      UnifiesL E θ s t ∧ ∀ n σ, unify E n s t [] ≠ .ok σ := by
+  refine ⟨{ vNoCopy := [4], vNoDrop := [4] },
+    .node (.func [2] 0) [.targ (.var 4), .targ (.atom .none)],
+    .node (.func [0] 0) [.targ (.var 4), .targ (.atom .none)],
+    fun _ => .atom (.num 2), rfl, rfl, rfl, ?_⟩
+  intro n σ
+  cases n with
+  | zero => simp [unify]
+  | succ n =>
+    have h1 : unify { vNoCopy := [4], vNoDrop := [4] } 1
+        (.node (.func [2] 0) [.targ (.var 4), .targ (.atom .none)])
+        (.node (.func [0] 0) [.targ (.var 4), .targ (.atom .none)]) [] = .fail := rfl
+    rw [unify_mono _ (Nat.succ_le_succ (Nat.zero_le n)) _ _ _ (by rw [h1]; intro h; cases h), h1]
+    intro h; cases h
+
+/-- not sound: `(?T @owned) -> None` against `(Q) -> None` with `?T` (variable 0) declared copyable and `Q`
+    (definition 4) linear succeeds with `T := Q`; after applying the result the linear input `Q` carries
+    different flags on the two sides.  (`check_inst` rejects `T := Q` later; `unify` itself does not.) -/
+theorem unify_sound_linear_flags_false :
+    ∃ (E : Env) (s t : Tm) (σ : Subst), s.wf = true ∧ t.wf = true ∧ unify E 3 s t [] = .ok σ ∧
+      ¬ LinEq E (applyStar σ s) (applyStar σ t) :=
+  ⟨{ dNoCopy := [4], dNoDrop := [4] },
+    .node (.func [2] 0) [.targ (.var 0), .targ (.atom .none)],
+    .node (.func [0] 0) [.targ (.node (.opaque 4) []), .targ (.atom .none)],
+    [(0, .node (.opaque 4) [])], rfl, rfl, rfl, by
+      intro h
+      have : norm { dNoCopy := [4], dNoDrop := [4] } (.node (.func [2] 0) [.targ (.node (.opaque 4) []), .targ (.atom .none)])
+           = norm { dNoCopy := [4], dNoDrop := [4] } (.node (.func [0] 0) [.targ (.node (.opaque 4) []), .targ (.atom .none)]) := h
+      simp [norm, normH, normFlags, normList, linear, copyable, droppable, copyableArgs, droppableArgs] at this⟩
+
+/-! ### the corollary for generic function values (`check_type_against`, parametrised case) -/
+
+/-- **Generic call, soundness.**  When `check_type_against` accepts a generic function value `act = forall
+    params. body` (no inference variables in `body`) against an expected type `exp`, the returned instantiation
+    `ins` has one variable-free entry per parameter, and ONE pass of the returned substitution `σ'` (this is how
+    every caller applies it) makes `exp` identical (up to flags) to `body[params := ins]`. -/
+theorem generic_call_sound (E : Env) (fuel p0 : Nat) (exp : Tm) (fresh : List V) (fl : List Nat) (p : Nat)
+    (args ins : List Tm) (σ' : Subst) (hact : ∀ a ∈ args, a.vars = [])
+    (h : checkAgainst E fuel p0 exp fresh (.node (.func fl p) args) = .ok ins σ') :
+    FlagEq (apply σ' exp) (.node (.func fl p0) (instBList ins args)) ∧
+      ins.length = fresh.length ∧ ∀ t ∈ ins, t.vars = [] :=
+  checkAgainst_sound E fuel p0 exp fresh fl p args ins σ' hact h
+
+/-- non-vacuity, and D18: `forall T. T -> T` against `(?8) -> int` gives `T := int` and the *resolved*
+    solution `?8 := int` (before the fix the solution of `?8` was the callee's internal variable `?2000`) -/
+example : checkAgainst {} 9 0 (.node (.func [0] 0) [.targ (.var 8), .targ (.atom (.num 2))]) [2000]
+    (.node (.func [0] 1) [.targ (.atom (.bvar 0)), .targ (.atom (.bvar 0))])
+    = .ok [.atom (.num 2)] [(8, .atom (.num 2))] := by rfl
+
 /-! ### non-vacuity -/
 
 /-- the hypotheses of the completeness theorems are satisfiable: default environment, `(?2)` against `(int)` -/
@@ -167,5 +322,13 @@ example : unify {} 9 (.atom (.cval 3 1)) (.atom (.cval 0 1)) [] = .fail := by rf
 example : unify { dNoCopy := [4], dNoDrop := [4] } 9
     (.node (.func [2] 0) [.targ (.node (.opaque 4) []), .targ (.atom .none)])
     (.node (.func [0] 0) [.targ (.node (.opaque 4) []), .targ (.atom .none)]) [] = .fail := by rfl
+
+/-- hypotheses of the exact theorems, in an environment where `Q` (definition 4) is linear:
+    `(?2 @owned) -> None` against `(Q @owned) -> None` with `θ(?2) = Q` -/
+example : SolvesX (fun _ => .node (.opaque 4) []) [] ∧
+    UnifiesX (fun _ => .node (.opaque 4) [])
+      (.node (.func [2] 0) [.targ (.var 2), .targ (.atom .none)])
+      (.node (.func [2] 0) [.targ (.node (.opaque 4) []), .targ (.atom .none)]) :=
+  ⟨fun _ _ h => by simp [lookup] at h, rfl⟩
 
 end GuppyVerif.Unify
